@@ -18,7 +18,7 @@ DTYPES = ["<f8", "<f8", "<f8", "<f4", "<f2", "<i8", "<i4", "<i2", "<i1", "<u8", 
           ">f4", ">i2", ">u2", ">i8", ">u4", ">f2"]
 # memory layouts of the structured image handed to Laser(): C order, Fortran order, a strided view into a larger
 # array, a view with negative strides (values and dtypes are the same; only the bytes in memory differ)
-LAYOUTS = ["C", "C", "C", "F", "strided", "reversed"]
+LAYOUTS = ["C", "C", "C", "F", "strided", "reversed"]   # generated: one of the last three for a fifth of the lasers
 
 # ----------------------------------------------------------------------------- encodings
 
@@ -272,8 +272,12 @@ def read_real(obj, what):
                 obj.extent  # noqa: B018
                 obj.config.get_pixel_width(), obj.config.get_pixel_height()
             elif what == "get":
-                obj.get(obj.elements[0], calibrate=True)
-                obj.get()
+                if type(obj).__name__ == "SRRLaser":   # a single layer: the reconstruction can be arbitrarily large
+                    obj.get(obj.elements[0], calibrate=True, layer=0)
+                    obj.get(layer=1)
+                else:
+                    obj.get(obj.elements[0], calibrate=True)
+                    obj.get()
             elif what == "weights":
                 for c in obj.calibration.values():
                     c.weights  # noqa: B018
@@ -542,7 +546,7 @@ class C01(Prop):
                 return s
 
     def gen_cal(self, rng, npoints=None):
-        n = rng.choice([0, 0, 1, 2, 3, 3, 4, 5, 6]) if npoints is None else npoints
+        n = (rng.choice([0, 0, 1, 2, 3, 3, 4, 5, 6]) if rng.random() < 0.97 else rng.randint(20, 50)) if npoints is None else npoints
         points = []
         for _ in range(n):
             a, b = rnd_float_tok(rng), rnd_float_tok(rng)
@@ -606,16 +610,19 @@ class C01(Prop):
         r = rng.random()
         if r < 0.12:
             return []
-        n = rng.choice([1, 1, 2, 3, 4, 6])
+        n = rng.choice([1, 1, 2, 3, 4, 6]) if rng.random() < 0.95 else rng.randint(20, 40)
         d = {}
         for _ in range(n):
             r = rng.random()
             if r < 0.3:
                 k = rng.choice(["Name", "File Path", "File Version", "File\tPath", "File\tVersion", "Na\tme", "", "Operator",
                                 "a\tb", "a b", "\t", " "])
+            elif r < 0.33:
+                k = rnd_str(rng, 100, 300, odd=0.2, nul_end_ok=True)
             else:
                 k = rnd_str(rng, 0, 8, odd=0.35, nul_end_ok=True)
-            v = rng.choice(["", "x"]) if rng.random() < 0.2 else rnd_str(rng, 0, 12, odd=0.35)
+            r = rng.random()
+            v = rng.choice(["", "x"]) if r < 0.2 else rnd_str(rng, 500, 3000, odd=0.2) if r < 0.24 else rnd_str(rng, 0, 12, odd=0.35)
             d[k] = v
         if rng.random() < 0.25:  # keys that collide only after tabs become spaces
             base = rnd_str(rng, 1, 3, odd=0.0)
@@ -870,8 +877,8 @@ class C01(Prop):
     def gen_history(self, rng):
         """constructor -> (calls) -> save/load -> calls -> save/load [-> go on with the loaded object -> calls -> save/load]"""
         case = {"kind": "history", **self.gen_laser(rng, empty_cals=rng.random() < 0.1)}
-        if case["cls"] != "srr" and rng.random() < 0.15:
-            case["layout"] = rng.choice(LAYOUTS)
+        if rng.random() < 0.2:
+            case["layout"] = rng.choice(LAYOUTS[3:])
         self.distinct_cals(rng, case)
         st = self.track(case)
         steps = []
@@ -901,14 +908,14 @@ class C01(Prop):
                 st["calkeys"][:] = list(st["names"])   # a loaded laser has its calibrations in element order
                 st["info"] = [k.replace("\t", " ") for k in st["info"] if k != "File Path"]
                 st["info"] = list(dict.fromkeys(st["info"] + ["Name", "File Path", "File Version"]))
-            ops(rng.choice([1, 1, 2, 3, 4]))
+            ops(rng.choice([0, 1, 1, 1, 2, 2, 3, 4]))
             save()
         case["steps"] = steps
         return case
 
     def gen_laser(self, rng, cls=None, old_layout=False, empty_cals=False):
         cls = cls or rng.choice(["laser", "laser", "spot", "srr", "srr"])
-        shape = [rng.choice([1, 1, 2, 3, 5]), rng.choice([1, 2, 3, 4, 7])]
+        shape = [rng.choice([1, 1, 2, 3, 5]), rng.choice([1, 2, 3, 4, 7])] if rng.random() < 0.97 else [rng.choice([9, 33, 64]), rng.choice([5, 17, 40])]
         nlayers = rng.choice([2, 2, 3, 4]) if cls == "srr" else 1
         nel = rng.choice([1, 1, 2, 2, 3, 4, 5, 6, 7, 8])
         used = set()
@@ -921,9 +928,10 @@ class C01(Prop):
                 while name in [e["name"] for e in elements]:
                     name += "_"
             dtype = rng.choice(DTYPES)
-            if cls == "srr" and dtype.startswith(">"):
+            if cls == "srr" and dtype.startswith(">") and rng.random() < 0.9:
                 # np.savez stacks the layer list into one native-byte-order array: byte order of SRR fields is
-                # not kept (values are).  Outside the stated quantifier (float/int dtypes); targeted case only.
+                # not kept (values are): known finding C01-srr-byteorder, modelled (`dataToArray`), outside `Laser.ok`;
+                # the few that are generated are compared with the model only
                 dtype = "<" + dtype[1:]
             elements.append({"name": name, "dtype": dtype, "bits": [self.gen_bits(rng, dtype, size) for _ in range(nlayers)]})
         idx = list(range(nel))
@@ -966,7 +974,7 @@ class C01(Prop):
             # dict reassigned, the image replaced by one with reordered fields), every element with its own calibration
             self.distinct_cals(rng, case)
             case["pre"] = self.gen_order_ops(rng, self.track(case))
-        if case["cls"] != "srr" and rng.random() < 0.15:
+        if rng.random() < 0.2:
             case["layout"] = rng.choice(LAYOUTS[3:])
         if kind == "crossclass":
             # the header of the saved file names another class (or an unknown one) than the config member is of
@@ -977,6 +985,7 @@ class C01(Prop):
             case["v06"] = rng.choice(V06_OK if rng.random() < 0.7 else V_REJECT + V06_OFF)
             case["v07"] = rng.choice(V07_OK if rng.random() < 0.7 else V_REJECT + V07_OFF)
             case["legacy_class"] = rng.random() < 0.4
+            case["resave"] = rng.random() < 0.5
         return case
 
     # ------------------------------------------------------------------ deterministic boundary cases
@@ -1013,7 +1022,9 @@ class C01(Prop):
         lay = {**base, "kind": "layouts", "v06": "0.6.0", "v07": "0.7.0", "legacy_class": False, "cals": [[0, calx]], "info": [["Name", "n"], ["k", "v\tw"]]}
         del lay["chain"]
         yield lay
+        yield {**lay, "resave": True}
         yield {**lay, "v06": "0.6.12", "v07": "0.7.10", "legacy_class": True}
+        yield {**lay, "v06": "0.6.12", "v07": "0.7.10", "legacy_class": True, "resave": True, "info": [["File Version", "x"], ["a\tb", "c"]]}
         yield {**lay, "v06": "0.5.9"}    # rejected: older than 0.6.0
         yield {**lay, "v06": "0.5.12", "info": []}
         yield {**lay, "cls": "srr", "shapes": [[1, 2], [1, 2]], "elements": [el("A", bits=[[1, 2], [3, 4]])], "config": srr, "legacy_class": True}
@@ -1241,7 +1252,15 @@ class C01(Prop):
                 f.add("cal:rsq-None")
         if len(lens) > 1:
             f.add("cal:differing-lengths")
+        if sh[0] * sh[1] > 35:
+            f.add("shape:large")
+        if any(len(c["points"]) >= 20 for _, c in case["cals"]):
+            f.add("cal:points>=20")
         info = case["info"]
+        if len(info) >= 20:
+            f.add("info:many-entries")
+        if any(len(k) >= 100 or len(v) >= 500 for k, v in info):
+            f.add("info:long-string")
         if not info:
             f.add("info:empty")
         ks = [k for k, _ in info]
@@ -1317,6 +1336,8 @@ class C01(Prop):
                     f.add(f"{k}:non-numeric-tail")
             f.add("v06:" + case["v06"])
             f.add("v07:" + case["v07"])
+            if case.get("resave"):
+                f.add("old-layout-resaved")
             if case["legacy_class"]:
                 f.add("legacy-class-name")
         return f
@@ -1399,22 +1420,36 @@ class C01(Prop):
             if rep.get("pre_failed"):
                 return outcome(None, None, None, spec_ok=True, model_ok=True, hyp=False, undetermined=True,
                                features={"excluded:operation-not-modelled"})
+            def run_old_resave(layout, version):
+                def f():   # an old file brought up to date: load it, save the loaded object, load again
+                    gen_npz.write_old(path, obj, version, layout, legacy_class=case["legacy_class"])
+                    old = npz.load(path)
+                    npz.save(path, old)
+                    return npz.load(path)
+                return f
+
             impl = {"v06": observe(run_old("0.6", case["v06"]), obj), "v07": observe(run_old("0.7", case["v07"]), obj),
                     "v08": observe(run_new, obj)}
-            model = {k: canon_reply(v) for k, v in rep["model"].items()}
-            spec = {k: canon_reply(v) for k, v in rep["spec"].items()}
+            keys = ["v06", "v07", "v08"]
+            if case.get("resave"):
+                impl["v06r"] = observe(run_old_resave("0.6", case["v06"]), obj)
+                impl["v07r"] = observe(run_old_resave("0.7", case["v07"]), obj)
+                keys += ["v06r", "v07r"]
+            model = {k: canon_reply(rep["model"][k]) for k in keys}
+            spec = {k: canon_reply(rep["spec"][k]) for k in keys if k in ("v06", "v07", "v08") or rep["hyp_resave"]}
         note = ""
         if isinstance(impl, dict) and "raises" in impl:
             note = impl.get("msg", "")
         impl_c = {k: strip_msg(v) for k, v in impl.items()} if case["kind"] == "layouts" else strip_msg(impl)
-        hyp = bool(rep["hyp"])
-        if case["cls"] == "srr" and self.swapped_fields(case):
-            hyp = False
+        hyp = bool(rep["hyp"])   # false for an SRR laser with a non-native field: the model stacks the layers as NumPy does
         excluded = (not hyp) and not case.get("expect_known")
         if excluded:
             # outside the theorems' hypotheses: no specification; the implementation is still compared with the model
             feats = set(feats) | {"excluded:" + str(case.get("excluded", "hypothesis"))}
             return outcome(impl_c, model, None, spec_ok=True, hyp=False, features=feats, note=note)
+        if case["kind"] == "layouts":   # the re-saved generations are judged only under their own hypotheses
+            return outcome(impl_c, model, spec, hyp=hyp, features=feats, note=note,
+                           spec_ok=all(core.canon(impl_c[k]) == core.canon(v) for k, v in spec.items()))
         return outcome(impl_c, model, spec, hyp=hyp, features=feats, note=note)
 
     @staticmethod
@@ -1504,8 +1539,6 @@ class C01(Prop):
             return skip("operation-raises")
         model = [canon_reply(r) for r in rep["model"]]
         oks = [bool(b) for b in rep["oks"]]
-        if case["cls"] == "srr" and self.swapped_fields(case):
-            oks = [False] * len(oks)
         hyp = bool(oks) and all(oks) and len(oks) == len(rep["spec"])
         spec = [canon_reply(r) if (i < len(oks) and oks[i]) else None for i, r in enumerate(rep["spec"])]
         # every load is judged against the specification of the state the object had when it was saved
